@@ -4,6 +4,7 @@
 package main
 
 import (
+	"encoding/json"
 	"flag"
 	"fmt"
 	"go/ast"
@@ -303,6 +304,7 @@ func writeIfChanged(path, content string) {
 func main() {
 	repo := flag.String("repo", "/repo", "repository")
 	out := flag.String("out", "/verif/lean/DnsModel/Generated", "output directory")
+	snapshot := flag.String("snapshot", "", "write specification snapshot (layouts.json, RfcLayouts.lean) into this directory")
 	flag.Parse()
 	p := load(*repo)
 	os.MkdirAll(*out, 0o755)
@@ -339,7 +341,6 @@ func main() {
 	def("minMsgSize", p.constVal("MinMsgSize"))
 	def("maxMsgSize", p.constVal("MaxMsgSize"))
 	b.WriteString("end Dns.Gen\n")
-	_ = sort.Strings
 	if len(failures) > 0 {
 		for _, f := range failures {
 			fmt.Fprintln(os.Stderr, "extract:", f)
@@ -347,4 +348,41 @@ func main() {
 		os.Exit(3)
 	}
 	writeIfChanged(filepath.Join(*out, "Consts.lean"), b.String())
+
+	// pack / unpack plans and the type registry
+	pk, up := p.plans()
+	reg := p.typeRegistry()
+	var lb strings.Builder
+	lb.WriteString("-- GENERATED by /verif/harness/cmd/extract from /repo's zmsg.go and ztypes.go (do not edit)\nnamespace Dns.Gen\n")
+	lb.WriteString(leanPlans("packPlans", pk))
+	lb.WriteString(leanPlans("unpackPlans", up))
+	var names []string
+	for n := range reg {
+		names = append(names, n)
+	}
+	sort.Strings(names)
+	lb.WriteString("def typeRegistry : List (String × Nat) := [")
+	for i, n := range names {
+		if i > 0 {
+			lb.WriteString(", ")
+		}
+		fmt.Fprintf(&lb, "(%s, %d)", leanStr(n), reg[n])
+	}
+	lb.WriteString("]\nend Dns.Gen\n")
+	if len(failures) > 0 {
+		for _, f := range failures {
+			fmt.Fprintln(os.Stderr, "extract:", f)
+		}
+		os.Exit(3)
+	}
+	writeIfChanged(filepath.Join(*out, "Layouts.lean"), lb.String())
+	if *snapshot != "" {
+		// one-time snapshot of the specification tables (committed, reviewed against the RFCs)
+		js, _ := json.MarshalIndent(map[string]any{"pack": pk, "unpack": up, "types": reg}, "", " ")
+		os.WriteFile(filepath.Join(*snapshot, "layouts.json"), js, 0o644)
+		spec := strings.ReplaceAll(lb.String(), "namespace Dns.Gen", "namespace Dns.Spec")
+		spec = strings.ReplaceAll(spec, "end Dns.Gen", "end Dns.Spec")
+		spec = strings.Replace(spec, "-- GENERATED by /verif/harness/cmd/extract from /repo's zmsg.go and ztypes.go (do not edit)", "-- Specification tables: per-type RDATA field sequences (RFC layouts), committed; see spec/README.md", 1)
+		os.WriteFile(filepath.Join(*snapshot, "RfcLayouts.lean"), []byte(spec), 0o644)
+	}
 }
